@@ -53,6 +53,11 @@ def run_property(pid, cfg, tier, known):
             fn_info.append({"function": q, "sha": fi.sha, "status": "undecided"})
         except RecursionError:
             eng.problems.append((q + "/body", "symbolic execution exceeded the recursion budget"))
+    for ln in cfg.get("lemmas", []):
+        try:
+            eng.verify_lemma(ln, eng.lemmas[ln])
+        except (EngineError, KeyError) as e:
+            eng.problems.append(("lemma:" + ln, f"{type(e).__name__}: {e}"))
     t_gen = time.time() - t0
     timeout_ms = 10000 if tier == "quick" else 60000
     obs = eng.obligations
@@ -78,11 +83,24 @@ def run_property(pid, cfg, tier, known):
             continue
         vs = [v for v in groups[n][1] if v.status == "failed"]
         v = vs[0]
+        concrete, cnote = None, ""
+        fq = n.split("/")[0]
+        if fq in eng.repo.funcs and fq in eng.contracts and v.ob.entry[0] is not None:
+            from .concretize import concretize
+            for cand in vs[:3]:
+                try:
+                    concrete, cnote = concretize(eng, cand.ob, eng.repo.funcs[fq], eng.contracts[fq])
+                except Exception as e:
+                    concrete, cnote = None, f"concretisation failed: {type(e).__name__}: {e}"
+                if concrete:
+                    v = cand
+                    break
         out["failed"].append({
+            "concretisation": cnote,
             "kind": "obligation", "property": pid, "name": n, "obligation_kind": v.kind, "clause": v.note,
             "function": n.split("/")[0], "source_sha": eng.repo.funcs[n.split("/")[0]].sha if n.split("/")[0] in eng.repo.funcs else None,
             "solver": v.solver, "solver_output": "sat", "path": " ".join(v.trace), "model": v.model,
-            "failing_paths": len(vs), "concrete": None, "replayed": False,
+            "failing_paths": len(vs), "concrete": concrete, "replayed": False,
             "note": "counter-model of the verification condition; concrete inputs could not be reconstructed automatically"})
     # known findings: the carved obligation must be proved, the un-carved twin must still fail
     for name, kf in eng.carveouts.items():
